@@ -217,4 +217,58 @@ theorem cast_cl (app : App) (fw : Bool) (s : Slots) (out : Out) :
     exact this
   · cases h
 
+/-! ### the framework's Content-Length as emitted -/
+
+theorem utf8EncodeChar_ascii (c : Char) (h : c.toNat < 128) :
+    String.utf8EncodeChar c = [UInt8.ofNat c.toNat] := by
+  unfold String.utf8EncodeChar
+  have hval : c.val.toNat = c.toNat := rfl
+  simp only [hval]
+  have : c.toNat ≤ 127 := by omega
+  simp only [this, if_true]
+
+theorem recode_ascii (s : Str) (h : ∀ c ∈ s, c.toNat < 128) : recodeLatin1 s = s := by
+  induction s with
+  | nil => rfl
+  | cons c cs ih =>
+    have hc := h c (List.mem_cons_self ..)
+    have ih' := ih (fun x hx => h x (List.mem_cons_of_mem _ hx))
+    unfold recodeLatin1 latin1Decode utf8 at ih' ⊢
+    simp only [List.flatMap_cons, utf8EncodeChar_ascii c hc, List.map_cons, List.singleton_append]
+    rw [ih']
+    congr 1
+    have h1 : (UInt8.ofNat c.toNat).toNat = c.toNat := by
+      simp only [UInt8.toNat_ofNat']; omega
+    rw [h1]
+    exact Char.ofNat_toNat c
+
+theorem natStr_ascii (n : Nat) : ∀ c ∈ natStr n, c.toNat < 128 := by
+  intro c hc
+  have := isDigit_bounds c (natStr_digits n c hc)
+  omega
+
+/-- a header entry with one good value that survives the blacklist is emitted -/
+theorem headerlist_mem (st : RState) (hl : List (Str × Str)) (h : headerlist st = some hl)
+    (k v : Str) (hm : (k, [HVal.good v]) ∈ st.headers)
+    (hkeep : (badHeadersFor st.code).contains (titleAscii k) = false) :
+    (k, recodeLatin1 v) ∈ hl := by
+  unfold headerlist at h
+  split at h
+  · cases h
+  · simp only [Option.some.injEq] at h
+    subst h
+    simp only [List.mem_append, List.mem_filterMap]
+    left; left
+    refine ⟨(k, HVal.good v), ?_, rfl⟩
+    unfold flatHeaders
+    simp only [List.mem_flatMap, List.mem_map]
+    refine ⟨(k, [HVal.good v]), ?_, HVal.good v, by simp, rfl⟩
+    unfold keptHeaders
+    simp only
+    split
+    · exact hm
+    · refine List.mem_filter.mpr ⟨hm, ?_⟩
+      simp only [hkeep, Bool.not_false]
+
+
 end Ombott.Wsgi
